@@ -91,8 +91,8 @@ def work(shard, res, tier, seed):
                 res.viol("molecule_changed_by_map_removal", case={"smiles": rx}, output=out, where="corpus_rx")
         # very long strings: several mapped sides joined into one mixture (hundreds of map numbers)
         sides = [x for rx in shard["rx"] for x in rx.split(">>") if x]
-        for k in range(0, min(len(sides), 120), 12):
-            big = ".".join(sides[k:k + 12])
+        for k in range(0, min(len(sides), 400), 40):
+            big = ".".join(sides[k:k + 40])
             check_one(big, res, fn, "long_mixture")
             res.count("max_maps_in_one_string", 0)
             res.counters["max_maps_in_one_string"] = max(res.counters["max_maps_in_one_string"], big.count(":"))
